@@ -36,31 +36,43 @@ Theorem C19_written : forall hv outs,
 Proof. exact written_spec. Qed.
 Print Assumptions C19_written.
 
-(** README: a line "d/" ignores ALL files in ANY directory named d. *)
-Theorem C19_dir_pattern : forall ps d pre post isd,
-  no_neg ps = true -> In (dir_pat d) ps -> post <> [] ->
-  gi_ignored ps (pre ++ d :: post) isd = true.
+(** README: a line "d/" ignores ALL files in ANY directory named d — whatever lines precede it, provided no
+    negation line follows it (last match wins). *)
+Theorem C19_dir_pattern : forall ps1 ps2 d pre post isd,
+  no_neg ps2 = true -> post <> [] ->
+  gi_ignored (ps1 ++ dir_pat d :: ps2) (pre ++ d :: post) isd = true.
 Proof. exact gi_dir_pattern. Qed.
 Print Assumptions C19_dir_pattern.
 
 (** The same law on the text of the ignore file: a line "d/" with d a plain name. *)
-Theorem C19_dir_line : forall lines d pre post isd,
-  no_neg (parse_lines lines) = true -> In (d ++ [47]) lines -> plain_name d = true -> post <> [] ->
-  gi_ignored (parse_lines lines) (pre ++ d :: post) isd = true.
+Theorem C19_dir_line : forall l1 l2 d pre post isd,
+  plain_name d = true -> no_neg (parse_lines l2) = true -> post <> [] ->
+  gi_ignored (parse_lines (l1 ++ (d ++ [47]) :: l2)) (pre ++ d :: post) isd = true.
 Proof. exact gi_dir_line. Qed.
 Print Assumptions C19_dir_line.
 
+(** A directory decided "ignore" takes everything below it with it: no negation re-includes below it. *)
+Theorem C19_level : forall ps pre d post isd,
+  decide ps (pre ++ [d]) true = DIgnore -> post <> [] -> gi_ignored ps (pre ++ d :: post) isd = true.
+Proof. exact gi_level. Qed.
+Print Assumptions C19_level.
+
 (** README: a glob line such as "*.hql" ignores ALL matching files, at any depth. *)
-Theorem C19_glob_pattern : forall ps g pre name isd,
-  no_neg ps = true -> In {| p_neg := false; p_dir := false; p_comps := [CDStar; CGlob g] |} ps ->
-  cmatch g name = true -> gi_ignored ps (pre ++ [name]) isd = true.
+Theorem C19_glob_pattern : forall ps1 ps2 g pre name isd,
+  no_neg ps2 = true -> cmatch g name = true ->
+  gi_ignored (ps1 ++ {| p_neg := false; p_dir := false; p_comps := [CDStar; CGlob g] |} :: ps2) (pre ++ [name]) isd = true.
 Proof. exact gi_glob_pattern. Qed.
 Print Assumptions C19_glob_pattern.
 
-(** Without negations the reference walk (nearest decision wins) is git's own top-down reading. *)
-Theorem C19_git_agree : forall ps path d, no_neg ps = true -> gi_ignored ps path d = gi_git ps path d.
-Proof. exact gi_git_agree. Qed.
-Print Assumptions C19_git_agree.
+(** The ignore crate's own parent walk (nearest decision wins) coincides with gitignore's reading exactly when
+    no negation takes part; with negations it can re-include below an ignored directory. *)
+Theorem C19_nearest_agree : forall ps path d, no_neg ps = true -> gi_nearest ps path d = gi_ignored ps path d.
+Proof. exact gi_nearest_agree. Qed.
+Print Assumptions C19_nearest_agree.
+
+Theorem C19_nearest_differs : exists ps path, gi_ignored ps path false = true /\ gi_nearest ps path false = false.
+Proof. exact nearest_differs. Qed.
+Print Assumptions C19_nearest_differs.
 
 (** The code before the three repairs falsified the property (see known_findings.txt for the four fix: commits). *)
 Theorem C19_legacy_refuted_dir_pattern :
